@@ -231,3 +231,92 @@ func c07PathStream(c *Ctx, n int) {
 
 // the Go-side path: "o" followed by the members
 func path2(p []string) []string { return append([]string{"o"}, p...) }
+
+// c07FieldTypeTie: the model's fieldType (driver op C07.ftype) against the real
+// compiler: `pipeline P(out X r) { call PROD(...) return (r = PROD.o.<path>) }`
+// must be accepted when X is the type the model computes for the projection,
+// and rejected when X has one array dimension more.
+func c07FieldTypeTie(c *Ctx, n int) {
+	r := c.Res
+	rng := c.Rng
+	for i := 0; i < n; i++ {
+		ot := c07RandType(rng)
+		paths := c07Paths(ot, 0)
+		path := paths[rng.Intn(len(paths))]
+		rep := c.Drv.Ask("C07.ftype", ot.enc(), hxList(path))
+		refText := "PROD.o"
+		if len(path) > 0 {
+			refText += "." + strings.Join(path, ".")
+		}
+		prog := func(x string) string {
+			return c07Decls + fmt.Sprintf("stage PROD(\n    in  int seed,\n    out %s o,\n    src comp \"fake\",\n)\n\npipeline P(\n    out %s r,\n)\n{\n    call PROD(\n        seed = 1,\n    )\n    return (\n        r = %s,\n    )\n}\n", ot.mro(), x, refText)
+		}
+		r.count(prog("?"), true)
+		if rep == "none" {
+			// the projection does not resolve: whatever the declared type, the compiler must refuse
+			_, cerr := c07RealCompile(prog("int"))
+			r.hist("ftype_none")
+			if cerr == nil {
+				r.violate(Violation{Kind: "correspondence", Key: "C07:ftype:none-accepted", What: "the model's fieldType is undefined but the compiler resolves the projection",
+					Input: map[string]interface{}{"program": prog("int")}, Broken: "correspondence fieldType ~ syntax.fieldType"})
+			}
+			continue
+		}
+		st, _ := c07ParseTyEnc(strings.Split(rep, " "))
+		if st == nil || c07Undeclarable(st) {
+			continue
+		}
+		_, e1 := c07RealCompile(prog(st.mro()))
+		_, e2 := c07RealCompile(prog(c07A(st).mro()))
+		r.hist("ftype_checked")
+		if e1 != nil || e2 == nil {
+			r.violate(Violation{Kind: "correspondence", Key: fmt.Sprintf("C07:ftype:exact=%v,deeper=%v", e1 == nil, e2 == nil),
+				What:  "the type the model's fieldType computes for a projection is not the type the real compiler gives it",
+				Input: map[string]interface{}{"program": prog(st.mro()), "model_type": st.mro(), "error": fmt.Sprint(e1)}, Broken: "correspondence fieldType ~ syntax.fieldType"})
+		}
+	}
+}
+
+// c07StrictStream replays Props.C07.rejected_invalid_or_overstrict on the real
+// validator: a reference-free literal the model rejects WITHOUT being in one of
+// the over-strict classes must denote JSON that the real IsValidJson refuses
+// (error or alarm) for the parameter type.
+func c07StrictStream(c *Ctx, n int) {
+	r := c.Res
+	rng := c.Rng
+	for i := 0; i < n; i++ {
+		t := c07RandType(rng)
+		g := &c07Gen{rng: rng, env: &c07Env{}, miss: 3, noBogus: true}
+		e := g.exp(t, 0)
+		if e.hasRef() {
+			continue
+		}
+		rep := strings.Fields(c.Drv.Ask("C07.strict", "0 0", t.enc(), e.enc()))
+		if len(rep) != 2 {
+			r.note("bad reply of C07.strict: %v", rep)
+			continue
+		}
+		r.count(t.enc()+" "+e.enc(), true)
+		r.hist("strict_valid=" + rep[0] + "_overStrict=" + rep[1])
+		if rep[0] == "true" || rep[1] == "true" {
+			continue
+		}
+		ast, cerr := c07RealCompile(c07Decls + fmt.Sprintf("stage S(\n    in  %s x,\n    src comp \"fake\",\n)\n", t.mro()))
+		if cerr != nil {
+			continue
+		}
+		rt := ast.TypeTable.Get(t.typeId())
+		if rt == nil {
+			continue
+		}
+		var alarms strings.Builder
+		verr := rt.IsValidJson([]byte(e.json()), &alarms, &ast.TypeTable)
+		if verr == nil && alarms.Len() == 0 {
+			r.violate(Violation{Kind: "correspondence", Key: "C07:strict:rejected-but-valid",
+				What:  "a literal the model rejects outside the enumerated over-strict classes denotes JSON the real IsValidJson accepts cleanly",
+				Input: map[string]interface{}{"type": t.mro(), "literal": e.mro(), "json": e.json()}, Broken: "rejected_invalid_or_overstrict"})
+		} else {
+			r.hist("strict_rejected_json_invalid")
+		}
+	}
+}
